@@ -153,6 +153,55 @@ def opCvExamples : List V → Option V
       some (ofTrace r.searches)
   | _ => none
 
+/-- `[vec [v…]]`, `[mat w [[…]…]]`, `[higher]` -/
+def toProba? : V → Option (ProbaOut Rat)
+  | list [atom "vec", v] => (toList? toRat? v).map ProbaOut.vec
+  | list [atom "mat", w, rows] => do
+      let w ← toNat? w
+      let rows ← toList? (toList? toRat?) rows
+      pure (ProbaOut.mat w rows)
+  | list [atom "higher"] => some ProbaOut.higher
+  | _ => none
+
+def toDecision? : V → Option (Option (List Rat))
+  | list [] => some none
+  | list [v] => (toList? toRat? v).map some
+  | _ => none
+
+def ofScores : Except ScoreErr (List Rat) → V
+  | .ok s => ofList ofRat s
+  | .error .indexError => atom "reject-index"
+  | .error .tooManyDims => atom "reject-dims"
+
+/-- `getscores decision proba` → the model of `_get_scores` on the outputs of the estimator's methods -/
+def opGetScores : List V → Option V
+  | [d, p] => do
+      let d ← toDecision? d
+      let p ← toProba? p
+      some (ofScores (getScores d p))
+  | _ => none
+
+/-- the harness's `IntScaler`: position 0 (the id) kept, position `j`: `(x - lo_j) * mult` -/
+def intScaler (lo : List Rat) (mult : Rat) (m : List (List Rat)) : List (List Rat) :=
+  m.map (fun r => (List.zipWith (fun x l => (x - l) * mult) r lo).zipIdx.map
+    (fun p => if p.2 = 0 then r.headD 0 else p.1))
+
+def ofPred : Except PredErr (List Rat) → V
+  | .ok s => ofList ofRat s
+  | .error .notFitted => atom "reject-notfitted"
+  | .error .featMismatch => atom "reject-features"
+
+/-- `predictscaled trained [lo] mult [stored names] [weights] n [[name [values]] ...]` → the model of
+`Model.decision_function` with the scaler -/
+def opPredictScaled : List V → Option V
+  | [tr, lo, mult, stored, w, n, cols] => do
+      let lo ← toList? toRat? lo
+      let w ← toList? toRat? w
+      some (ofPred (predictScaled (← toBool? tr) (intScaler lo (← toRat? mult)) (dot w) (← toList? toStr? stored)
+        (← toNat? n) (← toList? toCol? cols)))
+  | _ => none
+
+
 end Mk.Ops.Fit
 
 namespace Mk.Ops
@@ -160,6 +209,7 @@ open Mk V Mk.Ops.Fit
 
 def fitOps : List (String × (List V → Option V)) :=
   [("fitmodel", opFitModel), ("fitspec", opFitSpec), ("argsort", opArgsort), ("predictbyname", opPredict),
-   ("refitmodel", opRefit), ("fitcv", opFitCv), ("cvexamples", opCvExamples)]
+   ("refitmodel", opRefit), ("fitcv", opFitCv), ("cvexamples", opCvExamples), ("getscores", opGetScores),
+   ("predictscaled", opPredictScaled)]
 
 end Mk.Ops
